@@ -52,6 +52,15 @@ type tableMix struct {
 	methodsPool      []string
 }
 
+// scaleMix: in the thorough tier half of the worlds have longer histories over larger pools.
+func scaleMix(r *Rng, mix tableMix, tier string) tableMix {
+	if tier == "thorough" && r.Pct(50) {
+		mix.adminHi = mix.adminHi * 2
+		mix.poolHi = 22
+	}
+	return mix
+}
+
 var defaultMix = tableMix{adminLo: 4, adminHi: 20, reqLo: 2, reqHi: 6, poolLo: 6, poolHi: 14, pRemove: 12, pRemoveM: 10, pClean: 3, pPClean: 4, trace: 30}
 
 func genTableWorld(r *Rng, mix tableMix) *World {
@@ -349,7 +358,7 @@ func init() {
 		Gen: func(r *Rng, idx int, tier string) *World {
 			mix := defaultMix
 			mix.reqLo, mix.reqHi = 4, 10
-			return genTableWorld(r, mix)
+			return genTableWorld(r, scaleMix(r, mix, tier))
 		},
 		Exec: func(w *World, st *Stats) (*Violation, RunInfo) { return execTable(w, st, c01Oracle{}) },
 	})
@@ -480,7 +489,7 @@ func init() {
 			mix.facade = true
 			mix.reqLo, mix.reqHi = 0, 2
 			mix.adminLo, mix.adminHi = 6, 24
-			return genTableWorld(r, mix)
+			return genTableWorld(r, scaleMix(r, mix, tier))
 		},
 		Exec: func(w *World, st *Stats) (*Violation, RunInfo) { return execTable(w, st, c03Oracle{}) },
 	})
@@ -557,7 +566,7 @@ func init() {
 			mix.pRemove, mix.pRemoveM, mix.pClean, mix.pPClean = 12, 18, 4, 4
 			mix.reqLo, mix.reqHi = 0, 1
 			mix.trace = 40
-			w := genTableWorld(r, mix)
+			w := genTableWorld(r, scaleMix(r, mix, tier))
 			if r.Pct(10) { // brand-new router: probe before anything is registered
 				w.Ops = append([]Op{{K: "remove", Pattern: "/never"}}, w.Ops...)
 			}
